@@ -1293,18 +1293,19 @@ Proof.
   destruct (read_channel limit fs) as [d a]. cbn [fst snd] in *. destruct IH as [IH1 IH2]. split; lia.
 Qed.
 
-Lemma conn_info_requests_len : forall len avail dec, snd (read_conn_info (FFrame len avail dec)) = len.
-Proof. reflexivity. Qed.
+Theorem conn_info_bounded : forall limit f, (snd (read_conn_info limit f) <= limit)%N.
+Proof.
+  intros limit [len avail dec|]; cbn [read_conn_info]; [|cbn [snd]; lia].
+  destruct (N.ltb limit len) eqn:E; cbn [snd]; [lia|]. apply N.ltb_ge in E. exact E.
+Qed.
 
 Lemma connection_obs_shape : forall info ans qs evs,
-  (match info with FFrame len _ _ => N.leb alloc_bound len | FShortLen => false end) = false ->
   exists i a q e, connection_obs info ans qs evs = [i; zn a; zn q; zn e; 0]
     /\ (i = 0 \/ i = 1) /\ (a <= N.of_nat (List.length ans))%N /\ (q <= N.of_nat (List.length qs))%N /\ (e <= N.of_nat (List.length evs))%N.
 Proof.
-  intros info ans qs evs Hk. unfold connection_obs.
-  assert (Ha0 : (snd (read_conn_info info) < alloc_bound)%N).
-  { destruct info as [len avail dec|]; cbn [read_conn_info snd]; [apply N.leb_gt; exact Hk|reflexivity]. }
-  destruct (read_conn_info info) as [ok a0]. cbn [snd] in Ha0.
+  intros info ans qs evs. unfold connection_obs.
+  pose proof (conn_info_bounded max_buffer_size info) as Ha0.
+  destruct (read_conn_info max_buffer_size info) as [ok a0]. cbn [snd] in Ha0.
   destruct ok.
   - destruct (read_channel_bounded max_buffer_size ans) as [A1 A2].
     destruct (read_channel_bounded max_buffer_size qs) as [Q1 Q2].
@@ -1314,16 +1315,21 @@ Proof.
     replace (N.leb alloc_bound (N.max (N.max a0 aa) (N.max aq ae))) with false; [reflexivity|].
     symmetry. apply N.leb_gt. unfold max_buffer_size, alloc_bound in *. lia.
   - exists 0, 0%N, 0%N, 0%N. split; [|repeat split; auto; lia].
-    replace (N.leb alloc_bound a0) with false; [reflexivity|]. symmetry. apply N.leb_gt. exact Ha0.
+    replace (N.leb alloc_bound a0) with false; [reflexivity|]. symmetry. apply N.leb_gt. unfold max_buffer_size, alloc_bound in *. lia.
 Qed.
 
-Theorem ingest_safe_before_last_day : forall rf md,
-  (Z.leb rf md && Z.leb last_day_start_ms md) = false -> ingest_obs rf md = [0; 1].
+Theorem ingest_never_kills_the_writer : forall rf md, ingest_obs rf md = [0; 1].
 Proof.
-  intros rf md H. unfold ingest_obs, ingest_fate_of.
-  destruct (Z.ltb md rf) eqn:E1; [reflexivity|]. apply Z.ltb_ge in E1.
-  replace (Z.leb rf md) with true in H by (symmetry; apply Z.leb_le; exact E1). cbn [andb] in H.
-  apply Z.leb_gt in H. replace (Z.ltb md last_day_start_ms) with true by (symmetry; apply Z.ltb_lt; exact H). reflexivity.
+  intros rf md. unfold ingest_obs, ingest_fate_of.
+  destruct (negb (is_valid_date md)); [reflexivity|]. destruct (Z.ltb md rf); reflexivity.
+Qed.
+
+(* what the check is for: a date that passed it has its day and its next day in the calendar *)
+Lemma valid_date_has_next_day : forall ms, is_valid_date ms = true -> (day ms + ms_per_day <= last_day_start_ms)%Z.
+Proof.
+  intros ms H. unfold is_valid_date in H. apply andb_prop in H. destruct H as [_ H]. apply Z.ltb_lt in H.
+  unfold day, ms_per_day, last_day_start_ms in *.
+  assert (ms / 86400000 < 95026236)%Z by (apply Z.div_lt_upper_bound; lia). lia.
 Qed.
 
 (* ------------------------------------------------------------------------------------------ *)
@@ -1378,12 +1384,12 @@ Proof.
     constructor; [|constructor]. split; [apply aquery_never_panics|]. intro Hv. apply valid_aquery_executes; assumption.
   - apply (pool_run_ok [delete_valid dp] [delete_outcome dp] _ default_parallelism_pos).
     constructor; [|constructor]. split; [apply delete_never_panics|apply valid_delete_executes].
-  - apply flag_nil in Hk. destruct (connection_obs_shape info ans qs evs Hk) as (i & a & q & e & Ho & Hi & Ha & Hq & He).
+  - destruct (connection_obs_shape info ans qs evs) as (i & a & q & e & Ho & Hi & Ha & Hq & He).
     rewrite Ho. cbn [app]. unfold zn.
     replace (Z.eqb i 0 || Z.eqb i 1) with true by (destruct Hi; subst; reflexivity).
     cbn [Z.eqb andb].
     repeat (apply andb_true_intro; split); try reflexivity; apply Z.leb_le; lia.
-  - apply flag_nil in Hk. rewrite (ingest_safe_before_last_day rf md Hk). reflexivity.
+  - rewrite (ingest_never_kills_the_writer rf md). reflexivity.
   - reflexivity.
 Qed.
 
@@ -1575,13 +1581,12 @@ Definition w_alias_filter_agg : aquery :=  (* Person(order_by(a0 asc), a1 >= nul
      aq_before := []; aq_after := []; aq_filters := [(KSel 1, false, ANull)]; aq_nullable := []; aq_params := [] |}.
 
 Lemma frame_witnesses_w :
-  run_C14 (CFrames (FFrame 4294967295 0 false) [] [] []) = [0; 0; 0; 0; 1; 1] /\
-  spec_C14 (CFrames (FFrame 4294967295 0 false) [] [] []) [0; 0; 0; 0; 1; 1] = false /\
-  known_C14 (CFrames (FFrame 4294967295 0 false) [] [] []) = [9] /\
+  run_C14 (CFrames (FFrame 4294967295 0 false) [] [] []) = [0; 0; 0; 0; 0; 1] /\
+  spec_C14 (CFrames (FFrame 4294967295 0 false) [] [] []) [0; 0; 0; 0; 0; 1] = true /\
   run_C14 (CFrames (FFrame 90 90 true) [] [FFrame 45 45 true; FFrame 4294967295 45 false; FFrame 45 45 true] []) = [1; 0; 1; 0; 0; 1] /\
-  run_C14 (CIngest 1000 8210266876800000) = [2; 0] /\ known_C14 (CIngest 1000 8210266876800000) = [10] /\
-  run_C14 (CIngest 1000 8210266876799999) = [0; 0] /\ known_C14 (CIngest 1000 8210266790400000) = [10] /\
-  run_C14 (CIngest 1000 8210266790399999) = [0; 1] /\ run_C14 (CIngest 1000 (-5)) = [0; 1].
+  run_C14 (CIngest 1000 9223372036854775807) = [0; 1] /\ run_C14 (CIngest 1000 8210266876800000) = [0; 1] /\
+  run_C14 (CIngest 1000 8210266790400000) = [0; 1] /\ run_C14 (CIngest 1000 8210266790399999) = [0; 1] /\
+  run_C14 (CIngest 1000 (-5)) = [0; 1] /\ known_C14 (CIngest 1000 9223372036854775807) = [].
 Proof. vm_compute. repeat split; reflexivity. Qed.
 
 Lemma clause_witnesses_w :
